@@ -4,6 +4,7 @@ package cose
 
 import (
 	"crypto/ecdsa"
+	"encoding/asn1"
 	"crypto/ed25519"
 	"crypto/rsa"
 	"math/big"
@@ -15,6 +16,7 @@ func init() {
 	vRegister("H_C03_countersignature_iff", H_C03_countersignature_iff)
 	vRegister("H_C03_kinds_separated", H_C03_kinds_separated)
 	vRegister("H_C03_transplant", H_C03_transplant)
+	vRegister("H_C03_signature_forms", H_C03_signature_forms)
 }
 
 // refVerifier: a built-in verifier and the primitive's verdict on (ToBeSigned, signature) stated independently
@@ -287,6 +289,80 @@ func H_C03_transplant() {
 	}
 	if edit == 0 || edit == 5 {
 		vAssert("transplant: the genuine signature of this very message verifies (unprotected headers do not matter)", res == nil)
+	}
+	vReach("end")
+}
+
+// a genuine ECDSA signature of this very message, re-spelt (stripped, padded, DER, truncated, extended):
+// only the exact 2n-byte form is accepted through the message API (Sign1 and countersignature0)
+func H_C03_signature_forms() {
+	c07Start(1)
+	kind := vChoose("alg", 3)
+	alg := []Algorithm{AlgorithmES256, AlgorithmES384, AlgorithmES512}[kind]
+	c := vCurveByIndex(kind)
+	n := refOrderSize(c)
+	key := vECKeyValid("key", c)
+	vAssume(vOnCurve(&key.PublicKey))
+	ver, err := NewVerifier(alg, &key.PublicKey)
+	vAssume(err == nil)
+	prot, protContent := c03Protected("m", c07AlgEntry("m", alg))
+	payload := vBlob("payload")
+	ext := mkExternal("ext")
+	abbreviated := vChoose("as", 2) == 1
+	msig := vBlobN("msig", 1, 64)
+	var tbs []byte
+	if abbreviated {
+		// countersignature0 over a COSE_Sign1 whose own signature is msig (RFC 9338 section 3.3)
+		tbs = refSigStructure("CounterSignature0V2", [][]byte{protContent, {}}, ext, payload, []*vNodeT{nnBstr(msig, -1)})
+	} else {
+		tbs = refSigStructure("Signature1", [][]byte{protContent}, ext, payload, nil)
+	}
+	r, s := vEcdsaSign(key, vHash(refHashOfAlg(int64(alg)), tbs))
+	good := append(refFixed(r, n), refFixed(s, n)...)
+	var sig []byte
+	mode := vChoose("mode", 7)
+	switch mode {
+	case 0:
+		sig = good
+	case 1:
+		sig = append(append([]byte{}, good...), vBlobN("extra", 1, 4)...)
+	case 2:
+		sig = append([]byte{0}, good...)
+	case 3:
+		der, _ := asn1.Marshal(struct{ R, S *big.Int }{r, s})
+		vAssume(len(der) != 2*n)
+		sig = der
+	case 4: // leading zero octets stripped from each half
+		rb, sb := r.Bytes(), s.Bytes()
+		vAssume(len(rb)+len(sb) != 2*n)
+		sig = append(append([]byte{}, rb...), sb...)
+	case 5:
+		sig = good[:2*n-1]
+	case 6: // both halves shortened by the same amount (still two equal halves)
+		rb, sb := refFixed(r, n), refFixed(s, n)
+		vAssume(rb[0] == 0 && sb[0] == 0)
+		sig = append(append([]byte{}, rb[1:]...), sb[1:]...)
+	}
+	var res error
+	if abbreviated {
+		var m Sign1Message
+		vAssume(m.UnmarshalCBOR(vSer(nnTag(18, nnArray([]*vNodeT{prot, nnMap(nil, 0), nnBstr(payload, -1), nnBstr(msig, -1)}, 0), 0))) == nil)
+		res = VerifyCountersign0(ver, &m, ext, sig)
+		if mode == 0 {
+			vAssert("forms: the genuine fixed-width countersignature0 verifies", res == nil)
+		} else {
+			vAssert("forms: countersignature0 in any other spelling is refused", res != nil)
+		}
+		vReach("abbreviated")
+		return
+	}
+	var m Sign1Message
+	vAssume(m.UnmarshalCBOR(vSer(nnTag(18, nnArray([]*vNodeT{prot, nnMap(nil, 0), nnBstr(payload, vWidth("plw", uint64(len(payload)))), nnBstr(sig, vWidth("sigw", uint64(len(sig))))}, 0), 0))) == nil)
+	res = m.Verify(ext, ver)
+	if mode == 0 {
+		vAssert("forms: the genuine fixed-width signature verifies", res == nil)
+	} else {
+		vAssert("forms: any other spelling of a genuine signature is refused", res == ErrVerification)
 	}
 	vReach("end")
 }
